@@ -418,6 +418,34 @@ def run(F, rep, tier):
             else:
                 rep.viol('R14.4', evaluate + '|InternalFrame|truncate', 'the internal stack is not truncated on the error path of an internal frame', eb.loc(min(regn)) if regn else None)
 
+    # ---------------- R14.11
+    rep.rule('R14.11', 'allocations sized by a user-supplied number: every with_capacity / reserve / reserve_exact / vec![x; n] (from_elem) / resize / '
+             'str::repeat / slice::repeat in the closure whose size argument is not a constant and not derived from the length of an existing '
+             'collection is reported: an absurd size is a capacity-overflow panic or an allocation abort, not a catchable error (the fallible '
+             'try_reserve family is not flagged)')
+    ALLOC = re.compile(r'::(with_capacity|with_capacity_and_hasher|reserve|reserve_exact|from_elem|resize|repeat|repeat_n)$')
+    n11 = 0
+    per11 = {}
+    for b in F.all_bodies():
+        if b.path not in R:
+            continue
+        for c in b.calls:
+            if not ALLOC.search(c.target) or not re.search(r'vec::|string::String|str::<impl str>|slice::<impl|VecDeque|HashMap|HashSet|std::vec::from_elem', c.target):
+                continue
+            last = c.target.rsplit('::', 1)[-1]
+            szi = 0 if last.startswith('with_capacity') else 1
+            if len(c.args) <= szi:
+                continue
+            n11 += 1
+            rn = b.root_names(c.args[szi])
+            derived = bool(rn) and all(r.startswith('const:') or (r.startswith('call:') and r.rsplit('::', 1)[-1] in ('len', 'count', 'capacity')) for r in rn)
+            if derived:
+                rep.ok('R14.11', '%s: %s' % (C.fn_key(b.path), last), 'size is a constant or derived from the length of an existing collection')
+            else:
+                per11.setdefault((C.fn_key(b.path), last), []).append(c)
+    for (fk, last), lst in sorted(per11.items()):
+        rep.viol('R14.11', '%s|alloc:%s' % (fk, last), '%s allocates with %s (x%d) a number of elements taken from its argument: for an absurd size the process panics (capacity overflow) or aborts (allocation failure) instead of raising an error that try/catch receives' % (fk, last, len(lst)), lst[0].loc())
+    rep.floor('R14.11', 'sized allocations examined', n11, 10)
     # ---------------- R14.7
     rep.rule('R14.7', 'partial division-like operations (NInt/NNum Rem, div_floor, mod_floor, Ratio recip/new/Div/Rem, rem_euclid, DivAssign) '
              'called outside the operator layers: the divisor is a non-zero constant, or a zero test / length comparison on the same value '
@@ -482,6 +510,35 @@ def run(F, rep, tier):
             else:
                 rep.viol('R14.7', '%s|partial|%s' % (fk, last), '%s calls %s with a divisor that is neither constant nor tested for zero: the dependency panics on a zero divisor (not a catchable error)' % (fk, c.target.split('<')[0][:60] + last), c.loc())
     rep.floor('R14.7', 'partial operations outside the operator layers', n7, 20)
+    # a rational raised to a negative power takes a reciprocal inside num: zero base + negative exponent panics there
+    npow = 0
+    for b in F.all_bodies():
+        if b.path not in R:
+            continue
+        for c in b.calls:
+            if not (c.target.endswith('::pow') and 'Ratio<T>' in c.target and 'BigInt' in c.target):
+                continue
+            npow += 1
+            fk = C.fn_key(b.path)
+            PT = ('from', 'into', 'clone', 'deref', 'borrow', 'to_bigint', 'into_bigint', 'as_ref')
+            base_o = {str(o[:4]) for o in origins(b, c.args[0], passthru=PT)}
+            exp_o = {str(o[:4]) for o in origins(b, c.args[1], passthru=PT)}
+            negf = set()
+            for g in b.calls:
+                if g.target.rsplit('::', 1)[-1] in ('is_negative', 'is_positive') and g.args and ({str(o[:4]) for o in origins(b, g.args[0], passthru=PT)} & exp_o):
+                    for (sw, tt, ff) in bool_switches(b, g.dest[0]):
+                        negf.add(ff if g.target.endswith('is_negative') else tt)      # the "exponent is not negative" side
+            guarded = False
+            for g in b.calls:
+                if g.target.rsplit('::', 1)[-1] == 'is_zero' and g.args and ({str(o[:4]) for o in origins(b, g.args[0], passthru=PT)} & base_o):
+                    sws = bool_switches(b, g.dest[0])
+                    if sws and all(c.bb not in b.reachable_from(tt, avoid=negf) for (sw, tt, ff) in sws):
+                        guarded = True
+            if guarded:
+                rep.ok('R14.7', '%s: Ratio pow' % fk, 'a zero base with a negative exponent never reaches the call')
+            else:
+                rep.viol('R14.7', '%s|partial|ratio-pow' % fk, '%s raises a rational to an integer power without excluding "zero base, negative exponent": num takes the reciprocal of zero and panics ((0/1) ^ (-1))' % fk, c.loc())
+    rep.floor('R14.7', 'rational powers', npow, 1)
     # the Cycle non-emptiness belief
     built = [(b, bb) for b in F.all_bodies() for bb, s_ in b.aggregates() if s_[2][2] == 'streams::Cycle']
     for b, bb in built:
